@@ -251,20 +251,23 @@ def gaps (t : Trie α) (target order : Key) : List Key :=
     else [target]
   | node l r => gapsAt target order (node l r)
 
+/-- `matchingItemsBranch` of `allocateToKClosestAtDepth`: branch `i` of the items trie, or the items trie itself
+    when it is a single leaf whose key has bit `i` at `depth`; `none` = `continue`. -/
+def matchBranch (items : Trie α) (depth : Nat) (i : Bool) : Option (Trie α) :=
+  let m0 := items.br i
+  if m0.isEmptyLeaf then
+    match items with
+    | leaf ik _ => if bitAt ik depth == i then some items else none
+    | _ => none
+  else some m0
+
 /-- body of the `for i := range 2` loop of `allocateToKClosestAtDepth`; the two possible recursive
     calls are passed in as functions so that the recursion of `allocAt` stays structural. -/
 def allocSide {β : Type} (k depth : Nat) (items : Trie α) (i : Bool) (same other : Trie β)
     (recSame recOther : Nat → Trie α → List (β × List α)) : List (β × List α) :=
   let sameCount := same.size
   let otherCount := other.size
-  let m0 := items.br i
-  let m : Option (Trie α) :=
-    if m0.isEmptyLeaf then
-      match items with
-      | leaf ik _ => if bitAt ik depth == i then some items else none
-      | _ => none
-    else some m0
-  match m with
+  match matchBranch items depth i with
   | none => []
   | some m =>
     if sameCount ≤ k then
